@@ -60,6 +60,7 @@ PROBES = {
         "memory-holds-published",
         "merge-done",
         "compose-done",
+        "client-modified-comp-read-from-map",
     ]
 }
 
@@ -68,7 +69,7 @@ SIZES = [1, 8, 16, 32, 64]
 
 
 def plan(prop, tier, seed):
-    n, cases = (32, 120) if tier == "quick" else (320, 600)
+    n, cases = (32, 200) if tier == "quick" else (320, 800)
     return [{"kind": "random", "seed": run_seed(seed, prop, tier, i), "cases": cases, "want_sample": i < 2} for i in range(n)]
 
 
@@ -151,6 +152,7 @@ class Case(object):
         self.items = {}
         self.order = []
         self.maps = {}
+        self.held = {}
         self.mm = MemoryMap()
         self.mm_model = {}
         self.log = EventLog()
@@ -171,9 +173,7 @@ class Case(object):
 
         mark = len(self.B.log)
         try:
-            env = mapper()
-            for name, r in self.regs.items():
-                env[r] = cst(regval(name, k, r.size), r.size)
+            env = self.make_env(k)
             try:
                 v = e.eval(env)
                 if v._is_cst:
@@ -183,6 +183,22 @@ class Case(object):
                 return ["exc", type(x).__name__]
         finally:
             self.B.rollback(mark)
+
+    def make_env(self, k):
+        """fresh concrete environment: every register, and 96 bytes of memory
+        around the address held by a32 (so that mem leaves evaluate to constants)"""
+        from amoco.cas.mapper import mapper
+        from amoco.cas.expressions import cst, mem
+
+        env = mapper()
+        for name, r in self.regs.items():
+            env[r] = cst(regval(name, k, r.size), r.size)
+        if "a32" in self.regs:
+            base = (regval("a32", k, 32) - 32) & 0xFFFFFFFF
+            if base < 0xFFFFFF00:
+                pat = int.from_bytes(hashlib.sha256(b"mem|%d" % k).digest() * 3, "little")
+                env[mem(cst(base, 32), 96 * 8)] = cst(pat, 96 * 8)
+        return env
 
     def publish(self, id_, e):
         from ..heap import fingerprint, walk
@@ -208,9 +224,56 @@ class Case(object):
         it = self.items.get(id_)
         return it.e if it is not None else None
 
+    # -- holders: what a map holds must not change unless the map is written -----------
+    def snapshot_map(self, mid):
+        from ..heap import fingerprint
+
+        m = self.maps.get(mid)
+        if m is None:
+            self.held.pop(mid, None)
+            return
+        snap = {}
+        try:
+            for loc, v in m:
+                snap[str(loc)] = {"fp": fingerprint(v), "vals": [self.evaluate(v, k) for k in range(K)], "size": v.size}
+        except Exception:
+            return
+        self.held[mid] = snap
+
+    def check_maps(self, op):
+        from ..heap import fingerprint
+
+        for mid, snap in self.held.items():
+            m = self.maps.get(mid)
+            if m is None:
+                continue
+            now = {}
+            for loc, v in m:
+                now[str(loc)] = v
+            if set(now) != set(snap):
+                raise Failure("map-content-changed", {"map": mid, "appeared": sorted(set(now) - set(snap))[:4], "vanished": sorted(set(snap) - set(now))[:4]})
+            for l, v in now.items():
+                rec = snap[l]
+                f = fingerprint(v)
+                if f == rec["fp"]:
+                    continue
+                if v.size != rec["size"]:
+                    raise Failure("map-content-changed", {"map": mid, "loc": l, "size_was": rec["size"], "size_now": v.size})
+                for k in range(K):
+                    nv = self.evaluate(v, k)
+                    if rec["vals"][k][0] == "cst" and nv[0] in ("cst", "exc"):
+                        self.decided += 1
+                        if nv != rec["vals"][k]:
+                            raise Failure("map-content-changed", {"map": mid, "loc": l, "valuation": k, "was": rec["vals"][k], "now": nv, "expr": str(v)[:200]})
+                    else:
+                        self.incomparable += 1
+                rec["fp"] = f
+
     # -- the oracle ------------------------------------------------------------------
     def check(self, op, final=False):
         from ..heap import fingerprint, walk
+
+        self.check_maps(op)
 
         for id_ in self.order:
             it = self.items[id_]
@@ -257,6 +320,13 @@ class Case(object):
                 r = reg(op["name"], op["size"])
                 self.regs[op["name"]] = r
             return r
+        if op["k"] == "mem":
+            from amoco.cas.expressions import mem
+
+            base = self.regs.get(op["base"])
+            if base is None:
+                return None
+            return mem(base + op["disp"], op["size"], endian=op["en"])
         return cst(op["v"], op["size"])
 
     def apply(self, op):
@@ -358,9 +428,16 @@ class Case(object):
             m = self.maps.setdefault(op["m"], mapper())
             if "reg" in op:
                 r = self.regs.get(op["reg"])
-                if r is None or r.size != a.size:
+                if r is None:
                     return None
-                m[r] = a
+                if "pos" in op:
+                    if op["pos"] + a.size > r.size:
+                        return None
+                    m[r[op["pos"] : op["pos"] + a.size]] = a
+                elif r.size != a.size:
+                    return None
+                else:
+                    m[r] = a
             else:
                 base = self.regs.get(op["base"])
                 if base is None or a.size % 8:
@@ -373,6 +450,22 @@ class Case(object):
             if m is None:
                 return None
             return m(a)
+        if k == "map_read_modify":
+            # a client reads a register from a map and then modifies what it got
+            # (its own copy, as far as it can tell): the map must not change
+            m = self.maps.get(op["m"])
+            r = self.regs.get(op["reg"])
+            if m is None or r is None:
+                return None
+            x = m[r] if op.get("form") == "index" else m(r)
+            if id(x) in self.B.tracked:
+                return None  # the map handed out a published expression itself (e.g. an unset register)
+            if x._is_cmp and x.size >= 8:
+                x[0:8] = cst(0x5A, 8)
+                self.st.hit("probe:client-modified-comp-read-from-map")
+            elif not x._is_reg and not x._is_cst:
+                x.sf = not x.sf
+            return None
         if k == "compose":
             m1, m2 = self.maps.get(op["m1"]), self.maps.get(op["m2"])
             if m1 is None or m2 is None:
@@ -404,6 +497,36 @@ class Case(object):
         if k == "pickle":
             self.pickle(op, a)
             return None
+        if k == "pickle_fresh":
+            # round trip of freshly built nodes whose non-default slots matter
+            from amoco.cas.expressions import reg as _reg, slc as _slc
+
+            shape = op["shape"]
+            t = _reg("t%d" % a.size, a.size)
+            if shape == "reg-signed":
+                x = t.signed()
+            elif shape == "slc-of-signed":
+                t.sf = True
+                x = t[0 : max(1, a.size // 2)]
+            elif shape == "mem-be-mods":
+                if a.size % 8:
+                    return None
+                x = mem(t if t.size in (32, 64) else _reg("t32", 32), a.size, disp=4, mods=[(ptr(_reg("u32", 32), disp=1), a)], endian=-1)
+            elif shape == "cst-signed":
+                x = cst(-2, a.size)
+            elif shape == "op-signed":
+                x = (a + t)
+                if id(x) in self.B.tracked:
+                    return None
+                x.sf = True
+            elif shape == "tst":
+                x = tst(t[0:1] == cst(1, 1), a, t)
+            elif shape == "vec":
+                x = vec([a, t])
+            else:
+                x = composer([a, t])
+            self.pickle({"what": "exp"}, x)
+            return None
         raise ValueError("unknown op %r" % (op,))
 
     def evaluate_plain(self, e, k):
@@ -411,9 +534,7 @@ class Case(object):
         from amoco.cas.mapper import mapper
         from amoco.cas.expressions import cst
 
-        env = mapper()
-        for name, r in self.regs.items():
-            env[r] = cst(regval(name, k, r.size), r.size)
+        env = self.make_env(k)
         try:
             e.eval(env)
         except Exception:
@@ -495,12 +616,16 @@ class Case(object):
         for kx, n in undone.items():
             self.st.hit("undone:" + kx, n)
         self.log.event(op, outcome)
+        if op["op"] in ("map_set", "compose", "merge"):
+            self.held.pop(op.get("m"), None)  # legitimately written by this step
         try:
             self.check(op)
         except Failure as f:
             f.detail["writes"] = sorted(set("%s:%s" % (s, n) for (_, n, _, _, s) in writes))[:8]
             f.detail["outcome"] = outcome
             raise
+        if op["op"] in ("map_set", "compose", "merge"):
+            self.snapshot_map(op.get("m"))
         if res is not None and op.get("pub") is not None and outcome == "ok":
             self.publish(op["pub"], res)
         self.st.hit("ops:" + op["op"])
@@ -531,6 +656,8 @@ class Gen(object):
         for name, size in regs:
             if size in (8, 32) or r.random() < 0.6:
                 ops.append({"op": "leaf", "k": "reg", "name": name, "size": size, "pub": self.newid()})
+        for _ in range(r.choice([1, 2, 3])):
+            ops.append({"op": "leaf", "k": "mem", "base": "a32", "disp": r.randrange(-8, 24), "size": r.choice([8, 16, 32, 64]), "en": r.choice([1, 1, -1]), "pub": self.newid()})
         for size in (8, 16, 32, 64):
             m = (1 << size) - 1
             for v in r.sample([0, 1, m, 1 << (size - 1), m >> 1, r.getrandbits(size), 2, 3, size - 1], r.choice([2, 3, 4])):
@@ -543,7 +670,7 @@ class Gen(object):
 
     def op(self, r, case):
         kinds = [("bin", 10), ("un", 1.5), ("call", 2), ("slice", 2), ("composer", 1.5), ("tst", 1.5), ("vec", 1), ("ext", 1.5), ("simplify", 5), ("eval", 2),
-                 ("fresh_mut", 1), ("map_set", 3), ("map_get", 2), ("compose", 1), ("merge", 1), ("mmw", 1.5), ("mmr", 0.7), ("str", 1), ("pickle", 2)]
+                 ("fresh_mut", 1), ("map_set", 5), ("map_get", 2), ("map_read_modify", 4), ("compose", 1), ("merge", 1), ("mmw", 1.5), ("mmr", 0.7), ("str", 1), ("pickle", 2), ("pickle_fresh", 1.5)]
         k = weighted(r, kinds)
         a = self.pick(r, case)
         if a is None:
@@ -620,15 +747,22 @@ class Gen(object):
             m = "m%d" % r.randrange(3)
             if r.random() < 0.6:
                 regs = [n for n, x in case.regs.items() if x.size == sa]
-                if not regs:
+                bigger = [n for n, x in case.regs.items() if x.size > sa]
+                if bigger and (not regs or r.random() < 0.4):
+                    nm = r.choice(bigger)
+                    op.update({"m": m, "reg": nm, "pos": r.choice([0, 0, 8, case.regs[nm].size - sa])})
+                elif regs:
+                    op.update({"m": m, "reg": r.choice(regs)})
+                else:
                     return None
-                op.update({"m": m, "reg": r.choice(regs)})
             else:
                 if sa % 8 or "a32" not in case.regs:
                     return None
                 op.update({"m": m, "base": "a32", "disp": r.randrange(0, 16)})
         elif k == "map_get":
             op.update({"m": "m%d" % r.randrange(3), "pub": pub})
+        elif k == "map_read_modify":
+            op = {"op": k, "m": "m%d" % r.randrange(3), "reg": r.choice(sorted(case.regs)), "form": r.choice(["index", "call"])}
         elif k in ("compose", "merge"):
             op = {"op": k, "m1": "m%d" % r.randrange(3), "m2": "m%d" % r.randrange(3), "m": "m%d" % r.randrange(3)}
             if k == "merge":
@@ -642,6 +776,8 @@ class Gen(object):
         elif k == "pickle":
             what = r.choice(["exp", "exp", "map", "mm"])
             op.update({"what": what, "m": "m%d" % r.randrange(3)})
+        elif k == "pickle_fresh":
+            op.update({"shape": r.choice(["reg-signed", "slc-of-signed", "mem-be-mods", "cst-signed", "op-signed", "tst", "vec", "comp"])})
         if r.random() < 0.08 and k in ("bin", "simplify", "map_set", "map_get", "merge", "compose", "str", "composer", "slice"):
             op["abort"] = r.choice([0, 0, 1, 2, 4])
         return op
